@@ -185,3 +185,56 @@ func generic(n int, multi bool) {
 func GenericSingle() { generic(1, false) }
 func GenericMulti2() { generic(2, true) }
 func GenericMulti3() { generic(3, true) }
+
+var oddLens = []int{4, 28, 31, 32, 33, 36}
+
+// GenericLengths: the consensus signing root is defined for a 32-byte root and a 32-byte domain; a
+// generic request with any other split of the bytes is not signed (otherwise root||domain of a
+// slashable message could be presented under a different split).
+func GenericLengths() {
+	ctx := context.Background()
+	in := hc.Start(ctx, vsym.TempDir("A"), &stubs.Log{}, nil)
+	dl, rl := oddLens[vsym.Choose("domlen", len(oddLens))], oddLens[vsym.Choose("rootlen", len(oddLens))]
+	dom, root := vsym.Bytes("dom", dl), vsym.Bytes("root", rl)
+	var res core.Result
+	var sig []byte
+	if vsym.Choose("multi", 2) == 0 {
+		res, sig = in.Signer.SignGeneric(ctx, hc.Creds(), "W/a", nil, &rules.SignData{Domain: dom, Data: root})
+	} else {
+		rs, ss := in.Signer.Multisign(ctx, hc.Creds(), []string{"W/a"}, [][]byte{nil}, []*rules.SignData{{Domain: dom, Data: root}})
+		if len(rs) == 1 && len(ss) == 1 {
+			res, sig = rs[0], ss[0]
+		}
+	}
+	vsym.Out("res", int(res))
+	if res == core.ResultSucceeded {
+		vsym.Reach("generic-signed")
+	} else {
+		vsym.Reach("generic-not-signed")
+	}
+	vsym.Assert("L1-signed-only-for-a-32-byte-root-and-a-32-byte-domain", vsym.Implies(res == core.ResultSucceeded, dl == 32 && rl == 32))
+	vsym.Assert("L2-signature-iff-succeeded", (sig != nil) == (res == core.ResultSucceeded))
+}
+
+// ProtectedLengths: the attestation and proposal endpoints sign only under a 32-byte domain.
+func ProtectedLengths() {
+	ctx := context.Background()
+	in := hc.Start(ctx, vsym.TempDir("A"), &stubs.Log{}, nil)
+	dl := oddLens[vsym.Choose("domlen", len(oddLens))]
+	dom := vsym.Bytes("dom", dl)
+	var res core.Result
+	if vsym.Choose("endpoint", 2) == 0 {
+		vsym.Assume(vsym.And(dom[0] == 1, dom[1] == 0, dom[2] == 0, dom[3] == 0))
+		res, _ = in.Signer.SignBeaconAttestation(ctx, hc.Creds(), "W/a", nil, &rules.SignBeaconAttestationData{Domain: dom, BeaconBlockRoot: hc.Root,
+			Source: &rules.Checkpoint{Epoch: 1, Root: hc.Root}, Target: &rules.Checkpoint{Epoch: 2, Root: hc.Root}})
+	} else {
+		vsym.Assume(vsym.And(dom[0] == 0, dom[1] == 0, dom[2] == 0, dom[3] == 0))
+		res, _ = in.Signer.SignBeaconProposal(ctx, hc.Creds(), "W/a", nil, &rules.SignBeaconProposalData{Domain: dom, Slot: 3, ParentRoot: hc.Root, StateRoot: hc.Root, BodyRoot: hc.Root})
+	}
+	if res == core.ResultSucceeded {
+		vsym.Reach("protected-signed")
+	} else {
+		vsym.Reach("protected-not-signed")
+	}
+	vsym.Assert("L3-protected-endpoints-sign-only-under-a-32-byte-domain", vsym.Implies(res == core.ResultSucceeded, dl == 32))
+}
